@@ -273,7 +273,15 @@ func init() {
 			e, _ := opExample(s)
 			as, _ := opAST(s)
 			o, _ := opOpenAPI(s)
-			return fmt.Sprintf("check=%s len=%s used=%s example=%s ast=%s openapi=%s", c, opLen(s), u, e, as, o)
+			r := fmt.Sprintf("check=%s len=%s used=%s example=%s ast=%s openapi=%s", c, opLen(s), u, e, as, o)
+			// the same questions asked again of the same object must get the same answers
+			if as2, _ := opAST(s); as2 != as {
+				r += " again=ast:" + as2
+			}
+			if o2, _ := opOpenAPI(s); o2 != o {
+				r += " again=openapi:" + o2
+			}
+			return r
 		}
 		return "badcase"
 	}
